@@ -19,7 +19,8 @@ RULE = ("Names: grammar-generated valid names of all three forms (service, insta
         "plus random strings up to 300 chars. Oracle: independent recogniser written from the documented rules; accept<=>accept, "
         "returned type equal, rejection only by BadTypeInNameException, cached and uncached entry points agree. Names with an "
         "empty label inside the instance part are 'unspecified' (only the exception-type monitor applies). TXT: dictionaries with "
-        "str/bytes keys, str/bytes/None/empty values, items up to 255 bytes, duplicate keys after normalisation; encoded by "
+        "str/bytes keys, str/bytes/None/empty values, items up to 255 bytes, duplicate keys after normalisation, plus a sweep over "
+        "every item length 1..255 (key-only, key=, key=value; alone, first, last) and every key/value byte value; encoded by "
         "ServiceInfo, decoded by the library and by an independent RFC 6763 section 6 parser, and round-tripped through the wire "
         "codec. Distinct = (rule-violation set, strict, form) and (key type, value type, size bucket) classes.")
 ASSUMPTIONS = ["keys containing '=' or empty keys, and items longer than 255 bytes, are outside the quantifier"]
@@ -94,7 +95,11 @@ def grammar(s: str, strict: bool) -> Tuple[str, Optional[str]]:
         return ("unspecified", None)
     if rest:
         inst = ".".join(rest)
-        if len(inst.encode("utf-8")) > 63:
+        try:
+            n_bytes = len(inst.encode("utf-8"))
+        except UnicodeEncodeError:
+            return ("reject", None)      # a lone surrogate has no UTF-8 form: the label has no byte length and cannot be sent
+        if n_bytes > 63:
             return ("reject", None)
         if CONTROL.search(inst):
             return ("reject", None)
@@ -157,7 +162,8 @@ def valid_service(rng: random.Random, strict: bool = True) -> str:
 MUTATIONS = ["len16", "len17", "lead-hyphen", "trail-hyphen", "double-hyphen", "no-letter", "underscore", "no-underscore",
              "bare-underscore", "space", "nonascii-service", "newline-end", "control-instance", "inst64", "inst63", "inst-dotted",
              "inst-nonascii", "total256", "total257", "proto-upper", "proto-missing", "proto-other", "no-local", "no-trailing-dot",
-             "sub", "sub-empty", "sub-only", "leading-dot", "double-dot", "empty-service", "inst-del", "local-upper"]
+             "sub", "sub-empty", "sub-only", "leading-dot", "double-dot", "empty-service", "inst-del", "local-upper", "inst-surrogate",
+             "sub-surrogate"]
 
 
 def build_name(rng: random.Random, muts: List[str]) -> Tuple[str, str]:
@@ -200,6 +206,10 @@ def build_name(rng: random.Random, muts: List[str]) -> Tuple[str, str]:
             inst = (inst or "x") + rng.choice(["\x00", "\x01", "\x1f", "\x7f", "\n"])
         elif m == "inst-del":
             inst = "a\x7fb"
+        elif m == "inst-surrogate":
+            inst = rng.choice(["\ud800", "a\udfffb", (inst or "x") + "\udc80"])
+        elif m == "sub-surrogate":
+            sub = "pr\ud83dnt"
         elif m == "inst64":
             inst = gen.make_label(rng, 64, rng.choice([LET, "é" + LET]))
         elif m == "inst63":
@@ -359,6 +369,39 @@ def gen_props(rng: random.Random) -> Tuple[Dict[Any, Any], str]:
     return p, ",".join(sorted(tags)) or "empty"
 
 
+def sweep_props(rng: random.Random, shard: int, n_shards: int):
+    """Every item length 1..255 (the length byte takes every value, among them the codes of '=' and of the other bytes an item
+    can contain), as key-only item, key=value item with the separator at the front, the middle and the end, alone and after /
+    before other items; every key byte value except '=' and every value byte value in some item."""
+    for ln in range(1, 256):
+        if ln % n_shards != shard % n_shards:
+            continue
+        filler = bytes([rng.choice([x for x in range(256) if x != 0x3D])]) if rng.random() < 0.5 else b"k"
+        shapes: List[Tuple[Any, Any]] = [(filler * ln, None)]
+        if ln >= 2:
+            shapes.append((filler * (ln - 1), b""))                       # "key=" : empty value
+            shapes.append((b"k", bytes([ln]) * (ln - 2) if ln > 2 else b""))  # value made of the length byte's own value
+        if ln >= 3:
+            k = rng.randrange(1, ln - 1)
+            shapes.append((filler * k, bytes(rng.randrange(256) for _ in range(ln - k - 1))))
+            shapes.append(("s" * k, "v" * (ln - k - 1)))
+        for key, val in shapes:
+            for pos in ("alone", "last", "first"):
+                p: Dict[Any, Any] = {}
+                if pos == "last":
+                    p[b"a"] = b"1"
+                p[key] = val
+                if pos == "first":
+                    p[b"zz"] = None
+                yield p, "sweep-len/%s" % pos
+    for b in range(256):
+        if b % n_shards != shard % n_shards:
+            continue
+        if b != 0x3D:
+            yield {bytes([b]) * 3: b"v", b"t": None}, "sweep-keybyte"
+        yield {b"k": bytes([b]) * 4, b"t": bytes([b])}, "sweep-valbyte"
+
+
 def check_props(p: Dict[Any, Any], tag: str, res: Result) -> None:
     from zeroconf import ServiceInfo
     from zeroconf._protocol.incoming import DNSIncoming
@@ -435,7 +478,7 @@ def run_shard(spec):
         if r >= 0.97:
             # random string up to 300 chars
             ln = rng.choice([0, 1, 7, 12, 13, 40, 255, 256, 257, 300])
-            alpha = "_-.a1A\n\x01é" + "tcp" + "local"
+            alpha = "_-.a1A\n\x01é\ud800" + "tcp" + "local"
             s = "".join(rng.choice(alpha) for _ in range(ln)) + rng.choice(["", "._tcp.local.", ".local.", "local.", "._udp.local.", "_tcp.local."])
             tag = "random"
         else:
@@ -448,6 +491,8 @@ def run_shard(spec):
                 check_name(stem + suffix, strict, res, st + ":len%d" % len(stem))
     for _ in range(spec["dicts"]):
         p, tag = gen_props(rng)
+        check_props(p, tag, res)
+    for p, tag in sweep_props(rng, spec["shard"], spec["n_shards"]):
         check_props(p, tag, res)
     res.extra["const_exhaustive_stem_len"] = spec["exh"]
     return res
